@@ -122,26 +122,30 @@ type retInfo struct {
 }
 
 type Frame struct {
-	u         *Unit
-	fn        *ssa.Function
-	parent    *Frame
-	vals      map[ssa.Value]Val
-	addrs     map[ssa.Value]*Addr
-	tuples    map[ssa.Value][]Val
-	clos      map[ssa.Value]*closInfo
-	out       map[int]*State
-	edgeC     map[[2]int]string
-	rets      []retInfo
-	defers    []*ssa.Defer
-	tag       string
-	depth     int
-	curBlk    *ssa.BasicBlock
-	loopEnv   map[int]map[string]Val // header index -> name env used for invariants
-	ordinals  map[int]int            // header block index -> loop ordinal
-	iters     map[ssa.Value]*iterInfo
-	iterByOrd map[int]*iterInfo
-	spec      *FuncSpec
-	params    []Val
+	u           *Unit
+	fn          *ssa.Function
+	parent      *Frame
+	vals        map[ssa.Value]Val
+	addrs       map[ssa.Value]*Addr
+	tuples      map[ssa.Value][]Val
+	clos        map[ssa.Value]*closInfo
+	out         map[int]*State
+	edgeC       map[[2]int]string
+	rets        []retInfo
+	defers      []*ssa.Defer
+	tag         string
+	depth       int
+	curBlk      *ssa.BasicBlock
+	loopEnv     map[int]map[string]Val // header index -> name env used for invariants
+	ordinals    map[int]int            // header block index -> loop ordinal
+	iters       map[ssa.Value]*iterInfo
+	iterByOrd   map[int]*iterInfo
+	callOrd     map[string]int
+	pinned      map[*ssa.FreeVar]Val // captured variables that are never reassigned after capture: their value is fixed
+	headerState map[int]*State
+	headerPhis  map[int]map[*ssa.Phi]Val
+	spec        *FuncSpec
+	params      []Val
 }
 
 type iterInfo struct {
@@ -320,6 +324,12 @@ func (u *Unit) hset(st *State, name, srt, term string) {
 func isLocalName(n string) bool { return strings.HasPrefix(n, "%") }
 
 func (u *Unit) havocAll(st *State, why string) {
+	u.havocAllX(st, why, false)
+}
+
+// havocAllX: external=true means the unknown code lives outside the repository: it cannot reach the ghost state that
+// contracts declare (that state only changes through contracts), so ghosts survive.
+func (u *Unit) havocAllX(st *State, why string, external bool) {
 	if st.dead {
 		return
 	}
@@ -333,10 +343,23 @@ func (u *Unit) havocAll(st *State, why string) {
 	for _, s := range u.sinks {
 		s["*"] = true
 	}
+	if external {
+		// ghosts that have not been read yet must keep their current (epoch) value across the havoc as well
+		for g, srt := range u.eng.contracts.Ghosts {
+			if !strings.HasPrefix(srt, "const ") {
+				u.hget(st, g, srt)
+			}
+		}
+		for _, g := range []string{"$atomic", "$hashin"} {
+			if _, ok := u.heapSort[g]; ok {
+				u.hget(st, g, u.heapSort[g])
+			}
+		}
+	}
 	oldAlloc := u.hget(st, "$alloc", sInt)
 	nh := map[string]string{}
 	for k, v := range st.heap {
-		if isLocalName(k) || k == "$lock" || k == "$now" {
+		if isLocalName(k) || k == "$lock" || k == "$now" || (external && strings.HasPrefix(k, "$") && k != "$alloc") {
 			nh[k] = v // locals, the lockset of this goroutine and the ghost clock survive unknown calls (callees are lock-balanced: checked per function)
 		}
 	}
@@ -1125,6 +1148,87 @@ func (fr *Frame) localAt(b *ssa.BasicBlock, li *loopInfo) func(string, *State) (
 	}
 }
 
+// localsAt resolves a source-level local variable at instruction `at`: the value bound by the closest DebugRef that
+// precedes `at` in its block or sits in a dominating block (deepest dominator wins).
+func (fr *Frame) localsAt(at ssa.Instruction) func(string, *State) (Val, bool) {
+	return func(name string, st *State) (Val, bool) {
+		ab := at.Block()
+		var best ssa.Value
+		bestAddr := false
+		bestRank := -1
+		for _, blk := range fr.fn.Blocks {
+			if blk != ab && !blk.Dominates(ab) {
+				continue
+			}
+			depth := 0
+			for x := blk; x != nil; x = x.Idom() {
+				depth++
+			}
+			for ii, in := range blk.Instrs {
+				if blk == ab && in == at {
+					break
+				}
+				dr, ok := in.(*ssa.DebugRef)
+				if !ok {
+					continue
+				}
+				id, ok := dr.Expr.(*ast.Ident)
+				if !ok || id.Name != name {
+					continue
+				}
+				if rank := depth*100000 + ii; rank > bestRank {
+					bestRank, best, bestAddr = rank, dr.X, dr.IsAddr
+				}
+			}
+		}
+		if best == nil {
+			return Val{}, false
+		}
+		if bestAddr {
+			return fr.load(st, fr.addrOf(st, best)), true
+		}
+		return fr.val(st, best), true
+	}
+}
+
+// countCall bumps the ghost call counter of `name` (function or field name) and runs the contract's call-site asserts.
+func (fr *Frame) countCall(st *State, name string, in ssa.Instruction, pos token.Pos) {
+	u := fr.u
+	if fr.parent != nil || name == "" {
+		return
+	}
+	cn := "%calls_" + sanitize(name)
+	if u.spec != nil && !u.discovery {
+		n := fr.callOrd[name]
+		for _, cl := range u.spec.Asserts {
+			if cl.Kind != fmt.Sprintf("assert@%s#%d", name, n) {
+				continue
+			}
+			t, err := u.specBool(cl.Expr, &specCtx{fr: fr, cur: st, old: u.entry, env: fr.baseEnv(), local: fr.localsAt(in)})
+			if err != nil {
+				u.failed = fmt.Sprintf("%s:%d: %v", cl.File, cl.Line, err)
+				return
+			}
+			u.check(fr, st, "assert", fmt.Sprintf("%s.%d.%s", sanitize(name), n, clauseKey(cl)), t, "at call #"+fmt.Sprint(n)+" of "+name+": "+cl.Text, pos, cl.Props)
+		}
+	}
+	if fr.callOrd == nil {
+		fr.callOrd = map[string]int{}
+	}
+	fr.callOrd[name]++
+	if _, ok := u.heapSort[cn]; !ok {
+		u.heapSort[cn] = sInt
+	}
+	cur, ok := st.heap[cn]
+	if !ok {
+		cur = "0"
+	}
+	st.heap[cn] = u.define("calls", sInt, sx("+", cur, "1"))
+	for _, s := range u.sinks {
+		s[cn] = true
+	}
+}
+
 // loopFrameNames: heap variables written in a loop of the root function for which the modifies clause yields a frame invariant.
 func (fr *Frame) loopFrameNames(ws map[string]bool) []string {
 	u := fr.u
@@ -1222,6 +1326,9 @@ func (fr *Frame) enterLoop(b *ssa.BasicBlock, li *loopInfo, st *State, ins []*St
 			u.havocName(st, k)
 		}
 	}
+	if fr.headerPhis == nil {
+		fr.headerPhis = map[int]map[*ssa.Phi]Val{}
+	}
 	hv := map[*ssa.Phi]Val{}
 	for _, phi := range phis {
 		v := u.freshVal(st, fr.tag+"_"+phi.Name(), phi.Type())
@@ -1253,9 +1360,24 @@ func (fr *Frame) enterLoop(b *ssa.BasicBlock, li *loopInfo, st *State, ins []*St
 			u.assume(st, t)
 		}
 	}
+	if fr.headerState == nil {
+		fr.headerState = map[int]*State{}
+	}
+	fr.headerState[b.Index] = st.clone()
+	fr.headerPhis[b.Index] = hv
 }
 
 // autoInv assumes lo <= phi (or phi <= hi) when every back edge adds a positive (negative) constant.
+func (fr *Frame) loopIterations(b *ssa.BasicBlock) []*Clause {
+	if fr.spec == nil {
+		return nil
+	}
+	if ls, ok := fr.spec.Loops[fr.ordinals[b.Index]]; ok {
+		return ls.Iterations
+	}
+	return nil
+}
+
 func (fr *Frame) autoInv(st *State, b *ssa.BasicBlock, li *loopInfo, phi *ssa.Phi, entry, cur Val) {
 	if fr.u.sortOf(phi.Type()) != sInt {
 		return
@@ -1318,6 +1440,19 @@ func (fr *Frame) backEdge(p, h *ssa.BasicBlock, st *State, cond string) {
 					u.check(fr, s3, "frame", fmt.Sprintf("loop%d.%s", fr.ordinals[h.Index], k), phi, "loop body changes only locations named in modifies: "+k, p.Instrs[len(p.Instrs)-1].Pos(), u.spec.Props)
 				}
 			}
+		}
+	}
+	if its := fr.loopIterations(h); len(its) > 0 && fr.headerState[h.Index] != nil {
+		s4 := st.clone()
+		s4.pc = and(st.pc, cond)
+		env := fr.headerEnv(h, fr.headerPhis[h.Index])
+		for _, cl := range its {
+			t, err := u.specBool(cl.Expr, &specCtx{fr: fr, cur: s4, old: u.entry, env: env, header: fr.headerState[h.Index], local: fr.localAt(h, findLoops(fr.fn)[h.Index]), iter: fr.loopIter(h)})
+			if err != nil {
+				u.failed = fmt.Sprintf("%s:%d: %v", cl.File, cl.Line, err)
+				return
+			}
+			u.check(fr, s4, "iteration", fmt.Sprintf("loop%d.%s", fr.ordinals[h.Index], clauseKey(cl)), t, "holds at the end of every iteration: "+cl.Text, p.Instrs[len(p.Instrs)-1].Pos(), cl.Props)
 		}
 	}
 	if len(invs) == 0 {
@@ -1605,7 +1740,15 @@ func (fr *Frame) execInstr(st *State, in ssa.Instruction) {
 			fr.val(st, a)
 		}
 	case *ssa.Send:
-		u.havocAll(st, "channel send")
+		// a send enqueues: the ghost records, per channel object, how many values were sent and the last one. Blocking (and
+		// what other goroutines do meanwhile) is outside the sequential model.
+		ch := fr.val(st, x.Chan).T
+		fr.nilCheck(st, ch, x, "send on nil channel")
+		cnt := u.hget(st, "$chansent", "(Array Int Int)")
+		u.hset(st, "$chansent", "(Array Int Int)", store(cnt, ch, sx("+", sel(cnt, ch), "1")))
+		last := u.hget(st, "$chanlast", "(Array Int Any)")
+		u.hset(st, "$chanlast", "(Array Int Any)", store(last, ch, u.box(st, fr.val(st, x.X))))
+		u.note("channel send modelled as an enqueue on the ghost queue ($chansent / $chanlast); blocking not modelled")
 	case *ssa.Select:
 		u.havocAll(st, "select")
 		tv := []Val{}
@@ -1980,6 +2123,12 @@ func (fr *Frame) execUnOp(st *State, x *ssa.UnOp) {
 	u := fr.u
 	switch x.Op {
 	case token.MUL: // load
+		if fv, ok := x.X.(*ssa.FreeVar); ok {
+			if pv, ok := fr.pinned[fv]; ok {
+				fr.vals[x] = Val{pv.T, x.Type(), ""}
+				return
+			}
+		}
 		a := fr.addrOf(st, x.X)
 		if a.heap == "" || strings.HasPrefix(a.heap, "Cell_") {
 			ref := a.base
@@ -2470,6 +2619,10 @@ func builtinGhostSort(name string) string {
 		return "(Array Int Int)"
 	case "$hashin":
 		return "(Array Int Str)"
+	case "$chansent":
+		return "(Array Int Int)"
+	case "$chanlast":
+		return "(Array Int Any)"
 	case "$lastjson":
 		return sStr
 	case "$now", "$alloc":
@@ -2538,4 +2691,61 @@ func (u *Unit) bytesStr(arr, off, n string) string {
 	u.reg.axiom("(assert (forall ((a (Array Int Int)) (o Int) (n Int)) (! (=> (>= n 0) (= (slen (bytes_str a o n)) n)) :pattern ((bytes_str a o n)))))")
 	u.reg.axiom("(assert (forall ((a (Array Int Int)) (o Int) (n Int) (i Int)) (! (=> (and (<= 0 i) (< i n)) (= (sat (bytes_str a o n) i) (select a (+ o i)))) :pattern ((sat (bytes_str a o n) i)))))")
 	return sx("bytes_str", arr, off, n)
+}
+
+// effectivelyFinal: the captured variable behind free variable i of closure fn is assigned exactly once in the enclosing
+// function (its initialisation) and never inside a closure that captures it.
+func effectivelyFinal(fn *ssa.Function, i int) bool {
+	parent := fn.Parent()
+	if parent == nil {
+		return false
+	}
+	var cell ssa.Value
+	for _, b := range parent.Blocks {
+		for _, in := range b.Instrs {
+			if mc, ok := in.(*ssa.MakeClosure); ok && mc.Fn == ssa.Value(fn) && i < len(mc.Bindings) {
+				cell = mc.Bindings[i]
+			}
+		}
+	}
+	al, ok := cell.(*ssa.Alloc)
+	if !ok || al.Referrers() == nil {
+		return false
+	}
+	stores := 0
+	for _, r := range *al.Referrers() {
+		switch x := r.(type) {
+		case *ssa.Store:
+			if x.Addr == ssa.Value(al) {
+				stores++
+			} else {
+				return false
+			}
+		case *ssa.UnOp, *ssa.DebugRef:
+		case *ssa.MakeClosure:
+			cf := x.Fn.(*ssa.Function)
+			for j, bnd := range x.Bindings {
+				if bnd != ssa.Value(al) {
+					continue
+				}
+				if refs := cf.FreeVars[j].Referrers(); refs != nil {
+					for _, cr := range *refs {
+						if st, ok := cr.(*ssa.Store); ok && st.Addr == ssa.Value(cf.FreeVars[j]) {
+							return false
+						}
+						if _, isLoad := cr.(*ssa.UnOp); !isLoad {
+							if _, isDbg := cr.(*ssa.DebugRef); !isDbg {
+								if _, isStore := cr.(*ssa.Store); !isStore {
+									return false
+								}
+							}
+						}
+					}
+				}
+			}
+		default:
+			return false
+		}
+	}
+	return stores == 1
 }
